@@ -4,6 +4,7 @@ package vh
 
 import (
 	"context"
+	"io"
 	"net/http"
 	"net/url"
 
@@ -76,4 +77,43 @@ func VerifC04_v4_second() {
 	verifAssert("endpoint-runs-iff-request-valid", called == 1)
 	parts := map[string]any{"body": body}
 	verifAssert("openapi:schema-accepts-iff-server-accepts", verifSchemaAccepts(openapiDoc, "POST /second", parts) == (called == 1))
+}
+
+// design v4, method third: the request body is the attribute items, which is
+// required (and has a default): a request without a body is refused.
+func VerifC04_v4_third() {
+	bodyKind := nondetChoice("body", 3) // 0 absent, 1 empty array, 2 one element
+	var items []string
+	switch bodyKind {
+	case 1:
+		items = []string{}
+	case 2:
+		items = []string{nondetStringUpTo("item", 1)}
+	}
+	called := 0
+	endpoint := func(ctx context.Context, p any) (any, error) { called++; return nil, nil }
+	dec := func(*http.Request) goahttp.Decoder {
+		return stubDecoder{func(v any) error {
+			if bodyKind == 0 {
+				return io.EOF
+			}
+			*(v.(*[]string)) = items
+			return nil
+		}}
+	}
+	w := newRecWriter()
+	server.NewThirdHandler(endpoint, &stubMux{}, dec, recEncoder(), nil, nil).ServeHTTP(w, newRequest("POST", nil))
+	ran := called == 1
+	verifAssert("endpoint-runs-iff-request-valid", ran == (bodyKind != 0))
+	if !ran {
+		verifAssert("rejected:exactly-one-400", w.nHeaders == 1 && w.status == http.StatusBadRequest)
+		verifAssert("rejected:missing-payload", errorName(w) == "missing_payload")
+	}
+	parts := map[string]any{}
+	if bodyKind == 0 {
+		parts["body-missing"] = true
+	} else {
+		parts["body"] = items
+	}
+	verifAssert("openapi:schema-accepts-iff-server-accepts", verifSchemaAccepts(openapiDoc, "POST /third", parts) == ran)
 }
